@@ -19,10 +19,11 @@ def _has_var(t, cache):
     return r
 
 
-def spec_apps(formulas, seen, cache, reveal=()):
+def spec_apps(formulas, seen, cache, reveal=(), only=None):
     """ground applications of defined spec functions occurring in the formulas (outside binders)"""
     out = []
-    names = {f.name: f for f in SPEC.values() if f.define is not None and (not f.opaque or f.name in reveal)}
+    names = {f.name: f for f in SPEC.values() if f.define is not None and (not f.opaque or f.name in reveal)
+             and (only is None or f.name in only)}
     visited = set()
 
     def walk(t):
@@ -44,13 +45,13 @@ def spec_apps(formulas, seen, cache, reveal=()):
     return out
 
 
-def instantiate(formulas, depth=DEPTH, reveal=()):
+def instantiate(formulas, depth=DEPTH, reveal=(), only=None):
     """Add the defining equation of every defined spec-function application, `depth` rounds."""
     seen, cache = set(), {}
     extra = []
     frontier = list(formulas)
     for _ in range(depth):
-        apps = spec_apps(frontier, seen, cache, reveal)
+        apps = spec_apps(frontier, seen, cache, reveal, only)
         if not apps:
             break
         new = []
@@ -66,7 +67,7 @@ def build_query(vc, depth=DEPTH, extra_assumptions=()):
     # pattern-less lemmas are only usable through explicit ground instances (hints); giving the bare
     # quantifier to the solver would only start model-based instantiation
     lem = [LEMMAS[n].formula for n in sorted(vc.uses) if n in LEMMAS and (LEMMAS[n].patterns or not LEMMAS[n].vars)]
-    inst = instantiate(fs, depth, getattr(vc, "reveal", ()))
+    inst = instantiate(fs, depth, getattr(vc, "reveal", ()), getattr(vc, "unfold_only", None))
     # non-recursive ("macro") definitions may also be needed at terms that only E-matching creates
     for f in SPEC.values():
         if f.macro and f.define is not None:
